@@ -643,7 +643,15 @@ def eval_term(t, point: dict) -> float:
             if eval_term(t.args[k + 1], point):
                 return eval_term(t.args[k], point)
         raise ValueError("no branch of the Piecewise applies")
-    a = [eval_term(x, point) for x in t.args] if o not in ("fun", "diff") else []
+    if o == "fun" or (o == "diff" and t.args[0].op == "fun" and t.args[1].op == "var"):
+        # a generic function and its formal derivative take independent values at the sample point: any assignment is admissible
+        import zlib
+        return 0.23 + (zlib.crc32(repr((o, t.val, [(x.op, x.val) for x in t.args])).encode()) % 1000) / 870.0
+    a = [eval_term(x, point) for x in t.args] if o != "diff" else []
+    if o == "app":
+        # a generic function applied to terms: equal argument values give equal results, otherwise independent values
+        import zlib
+        return 0.19 + (zlib.crc32(repr((t.val, [float(f"{v:.6g}") for v in a])).encode()) % 1000) / 910.0
     if o == "add":
         return a[0] + a[1]
     if o == "sub":
